@@ -288,6 +288,8 @@ class ShareLayoutRT(Spec):
 def extra_checks(rep, tier):
     from contracts import immutable_grid
     immutable_grid.grid_check(rep, tier, "C01")
+    from contracts import grid_upload
+    grid_upload.grid_check(rep, tier, "C01")
 
 
 def contracts(tier):
